@@ -31,8 +31,8 @@ func newCaseStats() *CaseStats {
 	return &CaseStats{Labels: map[string]int{}, Extra: map[string]int{}}
 }
 
-func (s *CaseStats) label(l string) { s.Labels[l]++ }
-func (s *CaseStats) Has(l string) bool { return s.Labels[l] > 0 }
+func (s *CaseStats) label(l string)      { s.Labels[l]++ }
+func (s *CaseStats) Has(l string) bool   { return s.Labels[l] > 0 }
 func (s *CaseStats) Add(k string, n int) { s.Extra[k] += n }
 
 // statLine is one line of the stats file.
